@@ -34,6 +34,7 @@ From RW Require Import Base.Bytes Base.BytesFacts Base.Crc32c Fmt.Codec Fmt.Fram
      Link.Disk Link.DiskFacts1 Link.DiskFacts2 Link.DiskFacts3
      Link.Compose Link.ComposeFacts1 Link.ComposeFacts2 Link.ComposeFacts3 Link.ComposeFacts4
      Link.ComposeFacts5 Link.ComposeFacts6 Link.ComposeFacts7
+     Link.IndexStart Link.IndexStartFacts1 Link.IndexStartFacts2 Link.IndexStartFacts3 Wal.CrashExamples
      Run.RunSeg Run.RunSegFacts Gen.Constants.
 Open Scope N_scope.
 
@@ -757,17 +758,10 @@ Theorem Link_get_log_partial :
 Proof. exact get_log_link. Qed.
 Print Assumptions Link_get_log_partial.
 
-(* the full statement about GetLog, without the hypothesis on the recorded index
-   start (no WAL-level invariant speaks about si_index_start: L2's seg_read does
-   not use it).  NOT proved; Link_get_log_partial is the partial result, and the missing
-   ingredient is exactly: for every listed non-tail segment s with file f,
-   si_index_start s = cur_seal f <> 0 in every state of an accepted history
-   (the other half of seg_meta_ok, si_base s <= si_min s, is LInv_base_le_min). *)
-Definition Link_get_log_stmt : Prop :=
-  forall c nb w bd e idx l e',
-    cfg_ok c -> LInv c nb w (e_disk e) -> wlink c w bd (e_disk e) ->
-    get_log w idx e = (RLog l, e') ->
-    exists p, bread c w bd (e_disk e) idx p /\ decode_log p = Some l.
+(* the full statement about GetLog, without the hypothesis seg_meta_ok, is
+   Link_get_log (section 7, link3): the recorded IndexStart of every listed
+   sealed segment IS the index start of its file in every state of every
+   accepted history (invariant ISd). *)
 
 (* HISTORIES (Wal/Hist.v: calls, power loss after any j actions of a call or of
    Open with any crash choice, reopen; the histories crash_refinement is about).
@@ -850,6 +844,114 @@ Theorem Link_crash_in_open_covered :
                    GI c (nb + 2) (hstep_run c h (HCrashInOpen j cc)).
 Proof. exact crash_in_open_covered. Qed.
 Print Assumptions Link_crash_in_open_covered.
+
+(* ================================================================== *)
+(* 7. The recorded IndexStart (link3: Link/IndexStart.v, IndexStartFacts1-3.v)
+
+   The sealed reader takes the offset of the index block from the METADATA
+   (si_index_start); L2's seg_read ignores the field, so DIs / LInv say nothing
+   about it.  ISd d: every segment listed as sealed whose file exists records
+   the index start of that file, and it is not 0.  It is established where a
+   segment becomes sealed in the metadata -- rotation (st_rotate = the seal
+   offset of the tail file), tail truncation (the force-sealed writer's index
+   start = the seal offset of the batch just fsynced), Open completing an
+   interrupted rotation (cur_seal of the recovered file) -- and kept by
+   everything else.  The statement of link2 (hypotheses LInv and wlink only) was
+   not provable: LInv does not constrain the field.                        *)
+
+(* one action between two disks satisfying the structural invariant *)
+Theorem Link_ISd_step :
+  forall c nb nb' d a,
+    DIs c nb d -> DIs c nb' (apply_act d a) -> ISd d ->
+    (forall ps, a = ACommit ps -> ISs d (ps_segs ps)) ->
+    ISd (apply_act d a).
+Proof. exact ISd_step. Qed.
+Print Assumptions Link_ISd_step.
+
+(* power loss *)
+Theorem Link_ISd_crash : forall c nb cc d, DIs c nb d -> ISd d -> ISd (crash_disk cc d).
+Proof. exact ISd_crash. Qed.
+Print Assumptions Link_ISd_crash.
+
+(* every call: each metadata commit installs segments justified on the disk of
+   that moment (ctr), so ISd holds on every disk the call passes through *)
+Theorem Link_step_commits :
+  forall c nb s o r s' a,
+    cfg_ok c -> nb + 2 < two64 -> LInv c nb (ss_wal s) (e_disk (ss_env s)) -> e_fault (ss_env s) = None ->
+    sp_of (e_disk (ss_env s)) = a -> ISd (e_disk (ss_env s)) ->
+    step_model c s o = (r, s') -> ctr (ss_env s) (ss_env s').
+Proof. exact step_ctr. Qed.
+Print Assumptions Link_step_commits.
+
+Theorem Link_open_commits :
+  forall c nb e res e',
+    e_fault e = None -> DIs c nb (e_disk e) -> ISd (e_disk e) -> open_wal c e = (res, e') -> ctr e e'.
+Proof. exact open_wal_ctr. Qed.
+Print Assumptions Link_open_commits.
+
+Theorem Link_ISd_every_disk :
+  forall c nb (P : disk -> Prop) e e',
+    (forall d, P d -> DIs c nb d) -> ext P e e' -> ctr e e' -> ISd (e_disk e) ->
+    forall j, ISd (fold_left apply_act (firstn j (new_acts e e')) (e_disk e)).
+Proof. exact ext_ctr_prefix. Qed.
+Print Assumptions Link_ISd_every_disk.
+
+(* the invariant of crash_refinement, extended: GIS = GI /\ ISd (disk of the state) *)
+Theorem Link_index_start_step :
+  forall c nb h st,
+    cfg_ok c -> hstep_wf st -> nb + 2 < two64 -> GIS c nb h -> GIS c (nb + 2) (hstep_run c h st).
+Proof. exact GIS_step. Qed.
+Print Assumptions Link_index_start_step.
+
+Theorem Link_index_start_history :
+  forall c steps, cfg_ok c -> Forall hstep_wf steps -> short_enough steps ->
+    GIS c (2 * N.of_nat (length steps)) (hist_run c hist_init steps).
+Proof. exact hist_GIS. Qed.
+Print Assumptions Link_index_start_history.
+
+(* the hypothesis of Link_get_log_partial follows *)
+Theorem Link_seg_meta : forall c nb w d, LInv c nb w d -> ISd d -> seg_meta_ok w d.
+Proof. exact LInv_seg_meta. Qed.
+Print Assumptions Link_seg_meta.
+
+Theorem Link_get_log_state :
+  forall c nb w bd e idx l e',
+    LInv c nb w (e_disk e) -> ISd (e_disk e) -> wlink c w bd (e_disk e) ->
+    get_log w idx e = (RLog l, e') ->
+    exists p, bread c w bd (e_disk e) idx p /\ decode_log p = Some l.
+Proof. exact get_log_bytes. Qed.
+Print Assumptions Link_get_log_state.
+
+(* GETLOG DOWN TO BYTES, EVERY HISTORY.  After every history accepted by
+   crash_refinement that leaves the WAL running there is a byte disk linked to
+   L2's disk (lock-step run, Link_history) such that for EVERY index, whatever
+   entry GetLog returns is the decoding of the bytes the byte-level reader
+   (tail reader with the linked writer's offsets, or sealed reader with the
+   METADATA's IndexStart) returns from the byte-level file of the segment. *)
+Definition Link_get_log_stmt : Prop :=
+  forall c steps s,
+    cfg_ok c -> Forall hstep_wf steps -> short_enough steps ->
+    hs_mode (hist_run c hist_init steps) = Up s ->
+    exists bd, wlink c (ss_wal s) bd (e_disk (ss_env s)) /\
+      forall idx l e', get_log (ss_wal s) idx (ss_env s) = (RLog l, e') ->
+        exists p, bread c (ss_wal s) bd (e_disk (ss_env s)) idx p /\ decode_log p = Some l.
+
+Theorem Link_get_log : Link_get_log_stmt.
+Proof. exact hist_get_log. Qed.
+Print Assumptions Link_get_log.
+
+(* non-vacuity: (base, sealed, recorded IndexStart, index start of the file) of
+   the listed segments at the end of histories of Wal/CrashExamples.v --
+   Open completing a rotation interrupted before its commit (160 = batch 1 of
+   96 bytes, the entry frame of 56 of batch 2, the 8-byte header of the index
+   frame: the offset of the index block); a tail truncation interrupted after its force-seal, completed by
+   Open; the same truncation committed by the running process *)
+Example Link_ex_index_start :
+  is_shape cfg128 hist_rotation_before_commit = [(1, true, 160, 160); (3, false, 0, 0)] /\
+  is_shape cfg256 hist_trunc_after_forceseal = [(1, true, 216, 216); (4, false, 0, 0)] /\
+  is_shape cfg256 [HOpen; HOp (OStore [ex_log 1 1; ex_log 2 1; ex_log 3 1]); HOp (ODelete 3 3)]
+    = [(1, true, 216, 216); (3, false, 0, 0)].
+Proof. vm_compute. auto. Qed.
 
 (* ================================================================== *)
 (* Non-vacuity of sections 5 and 6: a concrete directory with two files  *)
